@@ -30,6 +30,11 @@ Known findings (family slugs computed from the concrete failing step; entries in
 known_findings.json):
  git-rename-detection-pairs-modified-file-with-added-copy (git: status reports a modified file also as renamed
      to a new file with its old content; revert then versions `c.moved` and loses the added file)
+ (the same family covers every case where the rename detector has two candidates for one committed file: its old
+     content in a new file while the file is still there modified, or in two new files; iter_changes then names the
+     same source twice and revert leaves `<name>.moved` versioned)
+ git-status-reports-root-renamed-to-directory       (git, NOT YET TRIAGED: all files of the basis moved into one
+     directory with the same names: iter_changes reports the root directory as renamed to that directory)
  git-revert-raises-after-remove-keep                (git: revert raises KeyError when a committed file was removed with
      keep_files and its directory is no longer versioned)
 Found by this check and FIXED in /repo (no family any more: a regression is a plain VIOLATION; the minimal
@@ -259,15 +264,35 @@ def expected_status(committed, current):
 
 
 def git_copy_of_modified(committed, current):
-    """a file that is modified (still versioned at its path) whose old content also
-    appears in a newly added file: the rename detector reports old -> new as well"""
+    """the rename detector has two candidates for one committed file, so iter_changes names the
+    same source path in two records: the old content of a committed file is found in a new file
+    while the file itself is still there modified, or in two (or more) new files"""
     cb = {l.split("|")[0]: l.split("|") for l in committed}
     cw = {l.split("|")[0]: l.split("|") for l in current}
     for p, f in cb.items():
-        if f[1] == "file" and p in cw and cw[p][1] == "file" and cw[p] != f:
-            for q, g in cw.items():
-                if q not in cb and g[1] == "file" and g[2] == f[2]:
-                    return True
+        if f[1] != "file":
+            continue
+        copies = [q for q, g in cw.items() if q not in cb and g[1] == "file" and g[2] == f[2]]
+        still_there_modified = p in cw and cw[p][1] == "file" and cw[p] != f
+        if (copies and still_there_modified) or (len(copies) >= 2 and p not in cw):
+            return True
+    return False
+
+
+def git_dir_holds_whole_basis(committed, current):
+    """some directory of the working tree contains exactly the files of the basis root (same
+    relative names and contents) while they are gone from the top: git's tree-level rename
+    detection then reports the *root* as renamed to that directory"""
+    cb = {l.split("|")[0]: l.split("|")[1:] for l in committed if l.split("|")[1] != "directory"}
+    cw = {l.split("|")[0]: l.split("|")[1:] for l in current if l.split("|")[1] != "directory"}
+    if not cb:
+        return False
+    for l in current:
+        f = l.split("|")
+        if f[1] == "directory" and f[0] != ".":
+            under = {q[len(f[0]) + 1:]: v for q, v in cw.items() if q.startswith(f[0] + "/")}
+            if under == cb and not any(q in cw for q in cb):
+                return True
     return False
 
 
@@ -423,7 +448,9 @@ def run_real(fmt, ops=None, rng=None, length=0, gen=True):
                     # (before the first commit the basis is the empty tree: only the root stays)
                     if new_listing != (committed or [".|directory|-|F"]):
                         problems.append((where, "revert did not restore the versioned part: %r" % (
-                            sorted(set(new_listing) ^ set(committed))[:4],), "revert-restore", None))
+                            sorted(set(new_listing) ^ set(committed))[:4],), "revert-restore",
+                            "git-rename-detection-pairs-modified-file-with-added-copy"
+                            if fmt == "git" and git_copy_of_modified(committed, listing) else None))
                     # unversioned files and files that were only added stay on disk
                     cb = {l.split("|")[0] for l in committed}
                     verp = {l.split("|")[0]: l.split("|")[1] for l in listing}
@@ -461,6 +488,8 @@ def run_real(fmt, ops=None, rng=None, length=0, gen=True):
                 fam = None
                 if fmt == "git" and git_copy_of_modified(committed, new_listing):
                     fam = "git-rename-detection-pairs-modified-file-with-added-copy"
+                elif fmt == "git" and git_dir_holds_whole_basis(committed, new_listing):
+                    fam = "git-status-reports-root-renamed-to-directory"
                 problems.append((where, "status says %r, the listings differ by %r" % (
                     sorted(set(got) - set(exp))[:4], sorted(set(exp) - set(got))[:4]), "status-sound-complete", fam))
             steps.append("%s@%s@%s" % ("ok" if res == "ok" else "err", ";".join(new_listing) or "-", ";".join(st) or "-"))
